@@ -352,7 +352,7 @@ def main():
                       kind_free_text="proxy-based symbolic executor for Python function objects over z3 (path enumeration by re-execution, solver-decided obligations, concrete replay)")],
         checks=[CHECKS[k] for k in sorted(CHECKS)],
         notes="All checks: ./check <ID> [--tier quick|thorough]; exit 0 pass, 1 VIOLATION, 2 inconclusive/harness error. "
-              "Fix commits in /repo: 15fbc37 (normalize_slice), bfce058 (_bound_degree budget), 82ae11e (normalize_chunks negatives), 5b1d580 (no-op rechunk lowering with balance=True), 9952173 (assignment through an empty reversed slice), 0adac22 (moment_combine empty blocks), f45e2be (split_every dict < 2), 99be851 (arg-reduction tie order over all axes), 1041dc1 (reversed slices over zero-width chunks), 2ddac4e (degree pass budget for 1-d rechunks), a3f6b80 (VIndexArray nested output keys), 2abb8f3 (take through broadcast_to), 28c955e (unaligned blockwise tie-break), 3995a9e (topk output size), bc5089d (argtopk keep-all branch), 15af49d (map_overlap trim=False metadata), 111a6f6 (Reduction under a generic graph walk), 40171ae (slice of a where=/out= elemwise), 786758d (integer + list assignment key), 6f9434c (slice through a multi-input Blockwise with a broadcast axis), ac0faae (min/max over empty blocks), 6378be2 (arg reductions over a zero-length chunk), f563a09 (slice through untrimmed / position-dependent map_overlap), 66571db (assignment of a value with several chunks), 7fdbf79 (.blocks pins its layout), bb76785 (balance=True through pushdowns and fusion), 997e294 (moment order 0/1 keepdims), 211485a (slice through a Blockwise with per-block payloads), ac71789 (integers through a length-1 reshape), f8757ba (empty selection through explicit per-block sizes), 5ba70d7 (native sliding-window reduction pins its input), b761b03 (eye with unequal row/column chunks), c3bcb11 (merge_to_number with zero-width chunks), 522379b (flat 1-d block sizes in rechunk), 3ab28e7 (out-of-bounds integer dask-array index), f7132fa (slice fusion beside an unknown-size axis), d793d76 (balance=True beside an unknown-size axis), b5fc55b (no slice pushdown onto argtopk's tuple blocks), 8ca17e7 (store pins its sources' layout), 3ed266c (no take pushed into per-block payloads), c32437f (fractional chunk sizes refused), e4fcbda (slice/take pushdown through chunk-unifying nodes keeps the advertised chunks), 9b355d2 (coarse pushdown waits for aligned operands), 29d2795 (setitem snapshots its key), e6aa95b (zero-width blocks in an absorbed slice), e9a83f1 (custom getitem arity in region reads), 5e47785 + 208f536 (the two chunk-unifying pushdown repairs made idempotent, contractions included), ace151e ('auto' chunks on empty arrays), 4a5da77 (dict chunk specs with negative / unknown axes), d0c7965 (unification with equal unknown sizes), 9540d36 (integer index before a reversed slice in assignment), a0a2f01 (slices of map_blocks results select whole blocks), 97d98b0 (one chunk unification per node, whatever the configuration later says); daf8481 was reverted by 0769e07. Known findings (not repaired, listed in known_findings.txt): dask.optimize over an aligned Blockwise with unaligned operands (C05); identity-like operations return self, so in-place assignment reaches earlier full slices (C11); multi-input map_blocks above a natively rewritten sliding-window reduction (C02, C01); a take pushed through a map_blocks call whose function is not element-wise (C02).",
+              "Fix commits in /repo: 15fbc37 (normalize_slice), bfce058 (_bound_degree budget), 82ae11e (normalize_chunks negatives), 5b1d580 (no-op rechunk lowering with balance=True), 9952173 (assignment through an empty reversed slice), 0adac22 (moment_combine empty blocks), f45e2be (split_every dict < 2), 99be851 (arg-reduction tie order over all axes), 1041dc1 (reversed slices over zero-width chunks), 2ddac4e (degree pass budget for 1-d rechunks), a3f6b80 (VIndexArray nested output keys), 2abb8f3 (take through broadcast_to), 28c955e (unaligned blockwise tie-break), 3995a9e (topk output size), bc5089d (argtopk keep-all branch), 15af49d (map_overlap trim=False metadata), 111a6f6 (Reduction under a generic graph walk), 40171ae (slice of a where=/out= elemwise), 786758d (integer + list assignment key), 6f9434c (slice through a multi-input Blockwise with a broadcast axis), ac0faae (min/max over empty blocks), 6378be2 (arg reductions over a zero-length chunk), f563a09 (slice through untrimmed / position-dependent map_overlap), 66571db (assignment of a value with several chunks), 7fdbf79 (.blocks pins its layout), bb76785 (balance=True through pushdowns and fusion), 997e294 (moment order 0/1 keepdims), 211485a (slice through a Blockwise with per-block payloads), ac71789 (integers through a length-1 reshape), f8757ba (empty selection through explicit per-block sizes), 5ba70d7 (native sliding-window reduction pins its input), b761b03 (eye with unequal row/column chunks), c3bcb11 (merge_to_number with zero-width chunks), 522379b (flat 1-d block sizes in rechunk), 3ab28e7 (out-of-bounds integer dask-array index), f7132fa (slice fusion beside an unknown-size axis), d793d76 (balance=True beside an unknown-size axis), b5fc55b (no slice pushdown onto argtopk's tuple blocks), 8ca17e7 (store pins its sources' layout), 3ed266c (no take pushed into per-block payloads), c32437f (fractional chunk sizes refused), e4fcbda (slice/take pushdown through chunk-unifying nodes keeps the advertised chunks), 9b355d2 (coarse pushdown waits for aligned operands), 29d2795 (setitem snapshots its key), e6aa95b (zero-width blocks in an absorbed slice), e9a83f1 (custom getitem arity in region reads), 5e47785 + 208f536 (the two chunk-unifying pushdown repairs made idempotent, contractions included), ace151e ('auto' chunks on empty arrays), 4a5da77 (dict chunk specs with negative / unknown axes), d0c7965 (unification with equal unknown sizes), 9540d36 (integer index before a reversed slice in assignment), a0a2f01 (slices of map_blocks results select whole blocks), 97d98b0 (one chunk unification per node, whatever the configuration later says), b80de08 (slice fusion keeps the advertised chunks); daf8481 was reverted by 0769e07. Known findings (not repaired, listed in known_findings.txt): dask.optimize over an aligned Blockwise with unaligned operands (C05); identity-like operations return self, so in-place assignment reaches earlier full slices (C11); multi-input map_blocks above a natively rewritten sliding-window reduction (C02, C01); a take pushed through a map_blocks call whose function is not element-wise (C02).",
         not_applicable=na,
     )
     json.dump(m, open("MANIFEST.json", "w"), indent=1)
